@@ -8,8 +8,12 @@ import (
 	"runtime"
 	"strconv"
 	"strings"
+	"sync"
+	"sync/atomic"
 
 	"github.com/uhppoted/uhppote-core/types"
+
+	"verif/harness/gen"
 )
 
 func init() { registry["C15"] = c15 }
@@ -154,6 +158,9 @@ func c15(c *Ctx) {
 	if c.Mode == "firstuse" {
 		return
 	}
+	if c.Batch%4 == 0 {
+		defer c15Concurrent(c)
+	}
 	var kept struct {
 		role       addrRole
 		text, copy string
@@ -248,6 +255,14 @@ func c15(c *Ctx) {
 			js, _ := json.Marshal(s)
 			if _, e3 := role.unjson(js); e3 == nil {
 				c.Res.Violate("C15:"+role.name+":json-accepts-invalid", fmt.Sprintf("%s UnmarshalJSON(%s) accepted an invalid address", role.name, js), w, caseNo)
+			}
+			// ... and no more acceptable for a variable that already holds a (perfectly good) address of the role
+			if caseNo%3 == 0 {
+				prevPort := uint16(50001 + caseNo%1000)
+				prev := netip.AddrPortFrom(netip.AddrFrom4([4]byte{192, 168, 1, byte(1 + caseNo%200)}), prevPort)
+				if g5, e5, g6, e6 := c15IntoUsed(role.name, prev, s, js); e5 == nil || e6 == nil {
+					c.Res.Violate("C15:"+role.name+":accepts-invalid:into-used-variable", fmt.Sprintf("%s address %q is invalid but a variable holding %v accepted it: Set gives %v, %v and UnmarshalJSON %v, %v", role.name, s, prev, g5, e5, g6, e6), w, caseNo)
+				}
 			}
 		}
 	}
@@ -409,4 +424,63 @@ func c15IntoUsed(role string, prev netip.AddrPort, s string, js []byte) (netip.A
 		e2 := json.Unmarshal(js, &b)
 		return a.AddrPort, e1, b.AddrPort, e2
 	}
+}
+
+// c15Concurrent: the verdict on a string does not depend on what other goroutines are parsing at the time. Half of the goroutines
+// parse valid addresses (all roles, all entry points), the other half strings that are rejected for every possible reason - also
+// the ones the standard library's own address parser chokes on ("", "localhost", ":60001", "::1").
+func c15Concurrent(c *Ctx) {
+	G := 8
+	per := c.N(6000, 60000)
+	if old := runtime.GOMAXPROCS(0); old < 8 {
+		runtime.GOMAXPROCS(8)
+		defer runtime.GOMAXPROCS(old)
+	}
+	var wg sync.WaitGroup
+	var nbad atomic.Int64
+	junk := []string{"", "localhost", ":60001", "::1", "[::1]:60001", "1.2.3", "a.b.c.d", "256.1.1.1", "1.2.3.4:99999", "1.2.3.4:", " ", "0x7f.0.0.1", "1.2.3.4:60000x"}
+	for g := 0; g < G; g++ {
+		wg.Add(1)
+		go func(g int) {
+			defer wg.Done()
+			rr := gen.New(c.Seed, fmt.Sprintf("C15/concurrent/%d", g), c.Batch)
+			for k := 0; k < per && nbad.Load() < 4; k++ {
+				role := addrRoles[rr.Pick(len(addrRoles))]
+				if g%2 == 1 {
+					s := junk[rr.Pick(len(junk))]
+					if _, err := role.parse(s); err == nil && !anyQuad.MatchString(s) {
+						nbad.Add(1)
+						c.Res.Violate("C15:"+role.name+":accepts-invalid:concurrent", fmt.Sprintf("%s address %q contains no dotted quad but was accepted while %d goroutines parse concurrently", role.name, s, G), map[string]any{"input": s}, -6)
+					}
+					continue
+				}
+				ip := rr.IP()
+				port := 1 + rr.Pick(59998)
+				s := fmt.Sprintf("%d.%d.%d.%d:%d", ip.B[0], ip.B[1], ip.B[2], ip.B[3], port)
+				want := netip.AddrPortFrom(netip.AddrFrom4([4]byte{ip.B[0], ip.B[1], ip.B[2], ip.B[3]}), uint16(port))
+				var got netip.AddrPort
+				var err error
+				entry := ""
+				switch rr.Pick(3) {
+				case 0:
+					entry = "Parse"
+					got, err = role.parse(s)
+				case 1:
+					entry = "Set"
+					got, err = role.set(s)
+				default:
+					entry = "UnmarshalJSON"
+					js, _ := json.Marshal(s)
+					got, err = role.unjson(js)
+				}
+				c.Res.Eval(1)
+				if err != nil || got != want {
+					nbad.Add(1)
+					c.Res.Violate("C15:"+role.name+":rejects-valid:concurrent", fmt.Sprintf("%s %s(%q) = %v, %v (expected %v) while %d goroutines parse valid and invalid addresses concurrently", role.name, entry, s, got, err, want, G), map[string]any{"input": s}, -6)
+				}
+			}
+		}(g)
+	}
+	wg.Wait()
+	c.Res.Count("concurrent-parses", int64(G*per))
 }
